@@ -204,6 +204,10 @@ OnStop == /\ IsEvent("OnStop")
           /\ Imp("C05", Ev.cause \in causes)             \* the first cause
           /\ onstop' = onstop + 1
           /\ UNCHANGED <<ops, idof, live, got, idres, stopped, pend, causes, sendBad, oncancel, cbrun, closeOpen, closeDone, rdDone>>
+\* what the OnStop hook saw when it used the client it was given: a stopped client that refuses at once
+HookSaw == /\ IsEvent("HookSaw")
+           /\ Imp("C05", Ev.stopped /\ Ev.refused)
+           /\ UNCHANGED <<ops, idof, live, got, idres, stopped, pend, causes, sendBad, oncancel, onstop, cbrun, closeOpen, closeDone, rdDone>>
 \* (aware: the handler watches its context - it returns when the context ends, whether the scenario releases it or not)
 CbStart == /\ IsEvent("CbStart") /\ cbrun' = cbrun \cup {[id |-> Ev.id, aware |-> Ev.aware]}
            /\ UNCHANGED <<ops, idof, live, got, idres, stopped, pend, causes, sendBad, oncancel, onstop, closeOpen, closeDone, rdDone>>
@@ -250,7 +254,7 @@ Terminal == /\ l <= Len(Trace) /\ Ev.ev \in {"Crash", "Deadlock", "Leak"}
             /\ UNCHANGED <<ops, idof, live, got, idres, stopped, pend, causes, sendBad, oncancel, onstop, cbrun, closeOpen, closeDone, rdDone>>
 
 Next == \/ Reset \/ OpB \/ CtxEnd \/ SendReq \/ SendCbReply \/ SendOther \/ Recv \/ RecvErr \/ Garbage \/ ChClose
-        \/ CloseB \/ CloseE \/ SendFailArmed \/ SendHealed \/ OpE \/ OnCancel \/ OnStop \/ CbStart \/ CbExit \/ Quiescent \/ Final
+        \/ CloseB \/ CloseE \/ SendFailArmed \/ SendHealed \/ OpE \/ OnCancel \/ OnStop \/ HookSaw \/ CbStart \/ CbExit \/ Quiescent \/ Final
         \/ Ignored \/ Terminal
 Spec == Init /\ [][Next]_vars
 
